@@ -21,6 +21,9 @@ WRITE_OK = re.compile(r"^(write_all|write_u8|write_u16|write_u32|write_u64|write
 COUNTED = re.compile(r"^(read|write|read_vectored|write_vectored|read_buf)$")
 
 
+BUFFERED = re.compile(r"^std::io::(BufWriter|LineWriter)<")
+
+
 def generic_scope(F, root):
     """Generic local bodies reachable from `root` through body-level callee definitions."""
     seen, order = set(), []
@@ -108,6 +111,7 @@ def run(ctx, rep):
             if re.search(r"(Result|Option)::(unwrap|expect)$|panicking::(panic|panic_fmt|assert_failed)|panic::panic_", cn):
                 rep.add("R3", "panic-site:%s:%s@%s" % (short, cn.split("::")[-1], _nth(b, bb, cn.split("::")[-1])), False, b.where(bb),
                         "explicit failure construct %s in a function that holds the caller's I/O objects" % cn)
+    r5(F, rep, "R5", scope)
     rep.floor("R1", "eof-probe", n_probe, 1)
     rep.floor("R2", "source-reads", n_read, 4)
     rep.floor("R2", "destination-writes", n_write, 4)
@@ -138,6 +142,63 @@ def run(ctx, rep):
             rep.add("R4", "write-after-reconstruction:%s" % strip_generics(callee_def(t)).split("::")[-1], ok, b.where(bb),
                     "destination is touched only behind the success edge of recompress_deflate_stream(..)?")
         rep.floor("R4", "writes-after-recompress", nW, 2)
+
+
+def r5(F, rep, rule, scope):
+    # ---- R5 buffering adaptors ------------------------------------------------------------------
+    # A BufWriter/LineWriter around the destination defers writes; its Drop flushes and *discards* the error. So a local
+    # of such a type in a function that holds the destination must be flushed explicitly (flush()/into_inner()), the result
+    # propagated, and that success must dominate every place where the function produces its non-error result.
+    n_buf = 0
+    for name in scope:
+        b = F.bodies[name]
+        short = name.split("::")[-1]
+        for l in range(1, len(b.locals)):
+            ty = b.local_ty(l)
+            if not BUFFERED.match(ty):
+                continue
+            n_buf += 1
+            flushes = []
+            for bb, t in b.calls():
+                cn = strip_generics(callee_def(t))
+                if not re.search(r"(Write::flush|BufWriter::into_inner|LineWriter::into_inner|BufWriter::into_parts)$", cn) or not t["args"]:
+                    continue
+                rs = set()
+                _roots_of(b, t["args"][0], rs, set())
+                if l in rs:
+                    flushes.append((bb, t))
+            good_edges = []
+            for bb, t in flushes:
+                cl = err.classify(b, t["dest"]["l"])
+                ti = err.try_info(b, t["dest"]["l"])
+                if cl and all(k == err.PROPAGATE for k, _, _ in cl) and ti is not None:
+                    good_edges.extend(ti["continue_edges"])
+            # places where the function's result is produced other than by propagating an error
+            bad = []
+            born = set()
+            for dbb, _, _, _ in b.defs(l):
+                born |= b.reachable_from(dbb)
+            for bb in sorted(b.normal_blocks()):
+                if bb not in born:
+                    continue          # results produced before the adaptor exists are not its concern
+                prod = []
+                for s in b.stmts(bb):
+                    if s.get("k") == "assign" and s["p"]["l"] == 0 and not s["p"]["p"]:
+                        r = s["r"]
+                        if r.get("k") == "agg" and r.get("adt") == "std::result::Result" and r.get("vname") == "Err":
+                            continue
+                        prod.append(s)
+                t = b.term(bb)
+                if t["k"] == "call" and t.get("dest") and t["dest"]["l"] == 0 and not t["dest"]["p"]:
+                    cn = strip_generics(callee_def(t))
+                    if not cn.endswith("FromResidual::from_residual") and not re.search(r"err_exit_code$|Err$", cn):
+                        prod.append(t)
+                if prod and not any(b.edge_dominates(a, s2, bb) for a, s2 in good_edges):
+                    bad.append(b.where(bb))
+            rep.add(rule, "buffered-destination-flushed:%s:%s" % (short, ty.split("<")[0].split("::")[-1]), not bad, b.where(0),
+                    "local _%d: %s — %d propagated flush(es); result produced without a dominating successful flush at %s" % (l, ty, len(good_edges), bad[:3])
+                    if bad else "local _%d: %s is flushed with `?` before every non-error result" % (l, ty))
+    rep.stats["buffering_adaptors_in_scope"] = n_buf
 
 
 def _nth(b, bb, m):
